@@ -3,7 +3,7 @@ import concurrent.futures as cf
 from . import common as C, gen as G, scenario as S, trace as T
 
 PROPS = "theories/Props/C18.v"
-ASSUME = ["a single injected failure per operation, at a filesystem call the interposer can fail individually (reads and directory batches are not)",
+ASSUME = ["a single injected failure per operation, at a filesystem call the interposer can fail individually (directory batches are not; a read(2) of file contents is failed where the operation issues one, judged by the property oracles only since the model has no such call)",
           "documented exceptions: path-based set/put panic when the flush of the source fails; the advisory re-touch after a lookup and per-entry temp-file cleanup ignore errors; a temp file whose own unlink was the failing call stays in .kismet_temp until age-based cleanup"]
 
 ERRNOS = {"open": ["EIO", "EACCES", "EMFILE", "ESTALE"], "create": ["EIO", "ENOSPC", "EACCES", "EMFILE"], "opentmp": ["EIO", "ENOSPC", "EMFILE"],
@@ -76,11 +76,20 @@ def run(ctx):
                 errs = [errs[0], errs[1 + rng.below(len(errs) - 1)]]
             for er in errs:
                 jobs.append((desc, L, seqs[k], k, er, call, str(can[k][1]) if call not in ("rename", "link") else str(can[k][2]), len(can)))
+        # reads of file contents the operation itself issues (a copy made by hand, a comparison): the model
+        # has no such call, so these runs are judged by the property oracles alone
+        nreads = 0
+        for e in evs[st["staged_at"]:upto]:
+            if e["call"] == "read" and not e["err"] and nreads < 3:
+                nreads += 1
+                jobs.append((desc, L, e["seq"], None, "EIO", "read", str(e.get("path", "")), len(can)))
 
     def one(job):
         desc, L, seq, k, er, call, path, nsig = job
         try:
             impl = S.run_impl(L, fault=(seq, er))
+            if k is None:
+                return job, impl, None, []
             aug = S.augment(L, impl, fault_by_step={1: (k, er)})
             model = S.run_model(aug)
             diffs = S.compare(L, impl, model)
@@ -93,10 +102,12 @@ def run(ctx):
     nontriv, samples, agree = 0, [], 0
     for job, impl, model, diffs in results:
         desc, L, seq, k, er, call, path, nsig = job
-        if k < nsig - 1:
+        if k is None or k < nsig - 1:
             nontriv += 1
         label = {"op": " ".join(map(str, desc["op"])), "writer": desc["w"][0], "pre": desc["pre"], "call": call, "errno": er, "path_class": path.split("/")[0]}
-        if diffs:
+        if k is None:
+            pass
+        elif diffs:
             ties.append({"what": "model and implementation disagree under the same injected fault", "case": label, "detail": diffs[:3]})
         else:
             agree += 1
